@@ -9,6 +9,11 @@ def step : List String → String
     match mg.toNat?, gas.toNat?, fee.toNat? with
     | some mg, some gas, some fee => if cosmosFloorAccept mg gas fee then "accept" else "reject"
     | _, _, _ => "bad-op"
+  | ["cfloor", mg, gas, fee, base] =>
+    -- the decorator alone, base fee in force: the declared fee and what would be charged both reach the floor
+    match mg.toNat?, gas.toNat?, fee.toNat?, base.toNat? with
+    | some mg, some gas, some fee, some b => if cosmosFloorAcceptTx true true mg gas fee b none then "accept" else "reject"
+    | _, _, _, _ => "bad-op"
   | ["efloor", mg, typ, gas, gp, tip, cap, base] =>
     match mg.toNat?, typ.toNat?, gas.toNat?, gp.toNat?, tip.toNat?, cap.toNat?, base.toNat? with
     | some mg, some typ, some gas, some gp, some tip, some cap, some base =>
@@ -42,8 +47,7 @@ def step : List String → String
   | "deploy" :: _ => "ok"
   | ["cpay", mg, gas, fee, base, tip] =>
     -- a delivered Cosmos transaction: refused when the declared fee is below the floor, when (fee market in force) its
-    -- price per gas is below the base fee, or when — carrying the dynamic-fee option — what it would be charged is below
-    -- the floor
+    -- price per gas is below the base fee, or when what it would be charged is below the floor
     (match mg.toNat?, gas.toNat?, fee.toNat? with
      | some mg, some gas, some fee =>
        let tipO : Option Nat := if tip == "-" then none else tip.toNat?
@@ -52,7 +56,7 @@ def step : List String → String
          | some b =>
            if gas = 0 then "bad-op"
            else if fee / gas < b then "reject"
-           else if cosmosFloorAcceptTx true mg gas fee b tipO then "accept" else "reject"
+           else if cosmosFloorAcceptTx true true mg gas fee b tipO then "accept" else "reject"
          | none => "bad-op"
      | _, _, _ => "bad-op")
   | _ => "bad-op"
